@@ -567,3 +567,54 @@ if __name__ == "__main__":
     from vf import runner
 
     sys.exit(runner.main("checks.c04", sys.argv[1:]))
+
+
+# =====================================================================================================================
+# run: run_whatshap as a whole over one VCF (real VcfReader -> ... -> real PhasedVcfWriter), see checks/phase_run.py
+# =====================================================================================================================
+from checks import phase_run as _pr
+
+
+class Run(_pr.PhaseRun):
+    """C04 on the whole command: every input record arrives in the output, in order, with its fixed fields; calls of
+    samples / chromosomes that were not selected are untouched; FORMAT values other than the phase encoding are unchanged;
+    genotypes keep their alleles unless distrusted; only heterozygous calls of usable variants are phased."""
+
+    def filter_shapes(self, shapes):
+        return shapes
+
+    def unreadable(self, e, sc, shape, info):
+        e.check(False, "the written VCF cannot be parsed (NUL bytes); tag=HP; samples=2; whole run", info)
+
+    def judge(self, e, sc, shape, out, lists, info):
+        inp = sc.doc
+        e.check(len(out["records"]) == len(inp["records"]), "the output VCF does not have the records of the input (%d in, %d out)" % (len(inp["records"]), len(out["records"])), info)
+        targets, processed = self.targets(sc), self.processed(sc)
+        for ri, ro in zip(inp["records"], out["records"]):
+            for f in ("chrom", "pos", "id", "ref", "qual"):
+                e.check(ri[f] == ro[f], "record field %s changed" % f, info)
+            e.check(tuple(ri["alts"] or ()) == tuple(ro["alts"] or ()), "ALT changed", info)
+            e.check(dict(ri["info"]) == dict(ro["info"]), "INFO changed", info)
+            for si, s in enumerate(_pr.SAMPLES):
+                ci, co = ri["calls"][si], ro["calls"][si]
+                if s not in targets or ri["chrom"] not in processed:
+                    same = all(self._v(ci.get(k)) == self._v(co.get(k)) for k in set(ci) | set(co))
+                    e.check(same, "a call of a sample / chromosome that was not selected changed", lambda: dict(info(), record=(ri["chrom"], ri["pos"]), sample=s))
+                    continue
+                e.check(ci.get("DP") == co.get("DP"), "a FORMAT value other than the phase encoding changed", info)
+                if not sc.distrust:
+                    e.check(sorted(ci["GT"]) == sorted(co["GT"]), "genotype alleles changed although genotypes are trusted", lambda: dict(info(), record=(ri["chrom"], ri["pos"]), sample=s))
+                if co.get("phased") and len(co["GT"]) > 1:
+                    e.check(len(set(co["GT"])) > 1, "a homozygous call is marked phased", info)
+                    e.check(sc.usable(ri), "a call of an unsupported variant (multi-ALT, or non-SNV under --only-snvs) is marked phased", lambda: dict(info(), record=(ri["chrom"], ri["pos"]), sample=s))
+
+    @staticmethod
+    def _v(v):
+        if isinstance(v, list):
+            v = tuple(v)
+        if isinstance(v, tuple) and all(x in (None, ".") for x in v):
+            return None
+        return v
+
+
+SUBCHECKS["run"] = Run()
